@@ -411,6 +411,11 @@ fn run_case(seed: u64, idx: usize, orphan_leg: bool, background_leg: bool, thoro
                 Ok(existed) => {
                     let m = model.apply_update(*id, meta, *merge);
                     if existed != m && !case.orphan_pokes {
+                        // background leg: the drain repair race may have resurrected a deleted document
+                        // (known-finding class): the engine then legitimately reports that it existed
+                        if case.background && existed && !m && versions.contains_key(id) {
+                            viol!("background-drain-repair-resurrects-concurrently-deleted", "step {}: update_metadata({}) found a document that the model had deleted (resurrected by the background drain's repair branch)", step_no, id);
+                        }
                         viol!("update-result", "step {}: update_metadata({}) returned {} model {}", step_no, id, existed, m);
                     }
                 }
@@ -627,13 +632,11 @@ fn run_case(seed: u64, idx: usize, orphan_leg: bool, background_leg: bool, thoro
                 if !ok {
                     // background leg: the drain's repair branch racing with a delete re-inserts the
                     // just-deleted version (same root cause as the orphan-mirror finding)
-                    let resurrected_prev = case.background
-                        && exp.is_none()
-                        && versions.get(id).map(|vs| {
-                            let cold = engine.cold_tier().fetch_document(*id).map(|v| bits(&v));
-                            let cmeta = engine.cold_tier().fetch_metadata(*id).map(|m| from_hm(&m));
-                            vs.iter().any(|d| cold == Some(d.bits.clone()) && cmeta == Some(d.meta.clone()))
-                        }) == Some(true);
+                    // background leg: a document that the model deleted is readable again. Whatever content
+                    // the mirror held when the drain started (an earlier version, or a planted entry) is what
+                    // the drain's repair branch re-inserts, so the class is decided by the effect alone: the id
+                    // had existed and is now canonical again although deleted.
+                    let resurrected_prev = case.background && exp.is_none() && versions.contains_key(id) && engine.cold_tier().fetch_document(*id).is_some();
                     let sig = if case.orphan_pokes && planted.contains(id) && exp.is_none() {
                         "drain-repair-resurrects-orphan-mirror".to_string()
                     } else if resurrected_prev {
